@@ -15,9 +15,18 @@ def rfiBody (xs : Array Float) (ys : Array CF) (n m : Nat) (segment : Nat) (x : 
   let base0 : Int := if m % 2 == 1 then (nearest : Int) - ((m - 1) / 2 : Nat) else (segment : Int) - ((m / 2 - 1 : Nat) : Int)
   let base : Nat := if base0 < 0 then 0 else if base0.toNat + m > n then n - m else base0.toNat
   let mut cur : Int := (nearest : Int) - base
-  let mut c : Array CF := (Array.range m).map fun i => ys[base + i]!
-  let mut d : Array CF := (Array.range m).map fun i => ys[base + i]! + ⟨EPS, 0⟩
-  let mut y := ys[base + cur.toNat]!
+  -- samples that are zero / negligible against the others: interpolate y + shift (vnacal_rfi.c)
+  let mut ymax : Float := 0.0
+  let mut ymin : Float := 1.0 / 0.0
+  for i in [0:m] do
+    let a := CF.abs ys[base + i]!
+    if a > ymax then ymax := a
+    if a < ymin then ymin := a
+  let shift : Float := if ymin < 1.0e-6 * ymax then 2.0 * ymax else 0.0
+  let addRe (z : CF) (r : Float) : CF := ⟨z.re + r, z.im⟩
+  let mut c : Array CF := (Array.range m).map fun i => addRe ys[base + i]! shift
+  let mut d : Array CF := (Array.range m).map fun i => addRe (addRe ys[base + i]! shift) EPS
+  let mut y := addRe ys[base + cur.toNat]! shift
   cur := cur - 1
   let mut stop := false
   for i in [0:m - 1] do
@@ -39,7 +48,7 @@ def rfiBody (xs : Array Float) (ys : Array CF) (n m : Nat) (segment : Nat) (x : 
         else
           y := y + d[cur.toNat]!
           cur := cur - 1
-  return y
+  return addRe y (-shift)
 
 def fltB (a b : Float) : Bool := a < b
 
